@@ -77,6 +77,41 @@ theorem C16_rampSeg_samples (start low high len freq lo hi : Int) (hlh : lo ≤ 
       · obtain ⟨j, h1, h2, h3, h4, h5⟩ := ih (j0 + 1) p hp
         exact ⟨j, by omega, h2, h3, h4, h5⟩
 
+/-- every sample of a whole ramp (any number of segments) lies inside the range it was asked to stay in -/
+theorem C16_ramp_in_range (freq lo hi : Int) (hlh : lo ≤ hi) : ∀ (tri : List Int) (start : Int), ∀ p ∈ ramp freq lo hi start tri, lo ≤ p.2 ∧ p.2 ≤ hi
+  | [], _, p, hp => by simp [ramp] at hp
+  | [_], _, p, hp => by simp [ramp] at hp
+  | [_, _], _, p, hp => by simp [ramp] at hp
+  | low :: high :: len :: rest, start, p, hp => by
+    simp only [ramp] at hp
+    rcases List.mem_append.mp hp with h | h
+    · obtain ⟨j, _, _, _, _, h5, h6⟩ := C16_rampSeg_samples start low high len _ lo hi hlh _ 0 p h
+      exact ⟨h5, h6⟩
+    · exact C16_ramp_in_range freq lo hi hlh rest _ p h
+
+/-- **a bend ramp stays inside the 14-bit range, a controller ramp inside the 7-bit range**: every pitch-bend event written by
+    `PB.onTime` / `p.onTime` carries a value in 0..16383 and every controller event written by `Controller.onTime` a value in 0..127,
+    whatever bounds, lengths and number of segments the program asks for.  (Before the repair 6f934a1 the bend samples were clamped at
+    0x7f7f = 32639 and a ramp above 16383 wrapped around in the file.) -/
+theorem C16_ramp_events_in_range (t : Trk) :
+    (∀ big tri, ∀ e ∈ (step t (.pbOnTime big tri)).ev, e ∈ t.ev ∨ (e.kind = .pitchBend ∧ 0 ≤ e.v1 ∧ e.v1 ≤ 16383)) ∧
+    (∀ no tri, ∀ e ∈ (step t (.ccOnTime no tri)).ev, e ∈ t.ev ∨ (e.kind = .cc ∧ 0 ≤ e.v2 ∧ e.v2 ≤ 127)) := by
+  constructor
+  · intro big tri e he
+    simp only [step] at he
+    rcases List.mem_append.mp he with h | h
+    · exact Or.inl h
+    · obtain ⟨p, hp, rfl⟩ := List.mem_map.mp h
+      have := C16_ramp_in_range 3 0 0x3fff (by decide) _ _ p hp
+      exact Or.inr ⟨rfl, this.1, this.2⟩
+  · intro no tri e he
+    simp only [step] at he
+    rcases List.mem_append.mp he with h | h
+    · exact Or.inl h
+    · obtain ⟨p, hp, rfl⟩ := List.mem_map.mp h
+      have := C16_ramp_in_range t.freq 0 127 (by decide) _ _ p hp
+      exact Or.inr ⟨rfl, this.1, this.2⟩
+
 /-- the ramp starts exactly at `lo` (clamped into the range) at the current position -/
 theorem C16_ramp_starts_at_low (start low high len freq lo hi : Int) (f : Nat) (hlen : 0 < len) (hf : 0 < freq) :
     (rampSeg start low high len freq lo hi (f + 1) 0).head? =
